@@ -332,8 +332,11 @@ class RefView(object):
         self.error = None
 
 
-def ref_view(art):
+def ref_view(art, canonical=False):
+    """canonical=True: key material enters the subject octets in canonical re-encoding (C01 decides
+    'was the key changed' on decoded values, not on MPI bit-count spelling)."""
     v = RefView()
+    pre = (lambda k: k.canonical_prefix()) if canonical else (lambda k: k.hash_prefix())
     try:
         vk = bridge.ref_tkey(art.verifier)
         s = art.subject
@@ -365,7 +368,7 @@ def ref_view(art):
         else:
             tk = bridge.ref_tkey(s['keybytes'])
             if s['t'] == 'key':
-                subj = rsigs.subject_key(tk.pub)
+                subj = pre(tk.pub)
             elif s['t'] == 'uid':
                 comp = None
                 for c in tk.uids:
@@ -376,13 +379,13 @@ def ref_view(art):
                 if comp is None:
                     v.error = 'uid not in key'
                     return v
-                subj = rsigs.subject_uid(tk.pub, comp.pkt.body) if comp.kind == 'uid' else rsigs.subject_uattr(tk.pub, comp.pkt.body)
+                subj = pre(tk.pub) + (b'\xb4' if comp.kind == 'uid' else b'\xd1') + len(comp.pkt.body).to_bytes(4, 'big') + comp.pkt.body
             elif s['t'] == 'subkey':
                 comp = [c for c in tk.subkeys if c.key.fingerprint == s['subfp']]
                 if not comp:
                     v.error = 'subkey not in key'
                     return v
-                subj = rsigs.subject_subkey(tk.pub, comp[0].key)
+                subj = pre(tk.pub) + pre(comp[0].key)
             else:
                 raise ValueError(s['t'])
         v.entries.append((sg, signer, subj))
